@@ -76,6 +76,11 @@ template class std::unique_ptr<gtry::hlim::BaseNode>;
 template class std::unique_ptr<gtry::hlim::Clock>;
 template class std::unique_ptr<gtry::hlim::SignalGroup>;
 
+#ifdef GATERY_VERIF
+namespace gtry::hlim { std::function<void(Circuit&, const char*)> g_verifPassHook; }
+#define GATERY_VERIF_PASS(c, name) do { if (::gtry::hlim::g_verifPassHook) ::gtry::hlim::g_verifPassHook((c), (name)); } while(0)
+#endif
+
 namespace gtry::hlim {
 
 Circuit::Circuit(std::string_view topName)
@@ -1674,33 +1679,105 @@ void Circuit::postprocess(const PostProcessor &postProcessor)
 
 void DefaultPostprocessing::generalOptimization(Circuit &circuit) const
 {
+#ifdef GATERY_VERIF
+	GATERY_VERIF_PASS(circuit, "Def.generalOptimization:begin");
+#endif
 	circuit.insertConstUndefinedNodes();
+#ifdef GATERY_VERIF
+	GATERY_VERIF_PASS(circuit, "Def.generalOptimization:insertConstUndefinedNodes");
+#endif
 	Subnet subnet = Subnet::all(circuit);
 	circuit.disconnectZeroBitConnections();
+#ifdef GATERY_VERIF
+	GATERY_VERIF_PASS(circuit, "Def.generalOptimization:disconnectZeroBitConnections");
+#endif
 	circuit.disconnectZeroBitOutputPins();
+#ifdef GATERY_VERIF
+	GATERY_VERIF_PASS(circuit, "Def.generalOptimization:disconnectZeroBitOutputPins");
+#endif
 	defaultValueResolution(circuit, subnet);
+#ifdef GATERY_VERIF
+	GATERY_VERIF_PASS(circuit, "Def.generalOptimization:defaultValueResolution");
+#endif
 	circuit.cullUnusedNodes(subnet); // Dirty way of getting rid of default nodes
+#ifdef GATERY_VERIF
+	GATERY_VERIF_PASS(circuit, "Def.generalOptimization:cullUnusedNodes");
+#endif
 
 	circuit.propagateConstants(subnet);
+#ifdef GATERY_VERIF
+	GATERY_VERIF_PASS(circuit, "Def.generalOptimization:propagateConstants");
+#endif
 	circuit.ensureEntityPortSignalNodes();
+#ifdef GATERY_VERIF
+	GATERY_VERIF_PASS(circuit, "Def.generalOptimization:ensureEntityPortSignalNodes");
+#endif
 	circuit.cullOrphanedSignalNodes();
+#ifdef GATERY_VERIF
+	GATERY_VERIF_PASS(circuit, "Def.generalOptimization:cullOrphanedSignalNodes");
+#endif
 	circuit.cullUnnamedSignalNodes();
+#ifdef GATERY_VERIF
+	GATERY_VERIF_PASS(circuit, "Def.generalOptimization:cullUnnamedSignalNodes");
+#endif
 	circuit.cullSequentiallyDuplicatedSignalNodes();
+#ifdef GATERY_VERIF
+	GATERY_VERIF_PASS(circuit, "Def.generalOptimization:cullSequentiallyDuplicatedSignalNodes");
+#endif
 	subnet = Subnet::all(circuit);
 	circuit.mergeRewires(subnet);
+#ifdef GATERY_VERIF
+	GATERY_VERIF_PASS(circuit, "Def.generalOptimization:mergeRewires");
+#endif
 	circuit.optimizeRewireNodes(subnet);
+#ifdef GATERY_VERIF
+	GATERY_VERIF_PASS(circuit, "Def.generalOptimization:optimizeRewireNodes");
+#endif
 	circuit.cullMuxConditionNegations(subnet);
+#ifdef GATERY_VERIF
+	GATERY_VERIF_PASS(circuit, "Def.generalOptimization:cullMuxConditionNegations");
+#endif
 	//circuit.breakMutuallyExclusiveMuxChains(subnet);
 	circuit.mergeMuxes(subnet);
+#ifdef GATERY_VERIF
+	GATERY_VERIF_PASS(circuit, "Def.generalOptimization:mergeMuxes");
+#endif
 	circuit.removeIrrelevantComparisons(subnet);
+#ifdef GATERY_VERIF
+	GATERY_VERIF_PASS(circuit, "Def.generalOptimization:removeIrrelevantComparisons");
+#endif
 	circuit.removeIrrelevantMuxes(subnet);	
+#ifdef GATERY_VERIF
+	GATERY_VERIF_PASS(circuit, "Def.generalOptimization:removeIrrelevantMuxes");
+#endif
 	circuit.mergeBinaryMuxChain(subnet);
+#ifdef GATERY_VERIF
+	GATERY_VERIF_PASS(circuit, "Def.generalOptimization:mergeBinaryMuxChain");
+#endif
 	circuit.removeNoOps(subnet);
+#ifdef GATERY_VERIF
+	GATERY_VERIF_PASS(circuit, "Def.generalOptimization:removeNoOps");
+#endif
 	circuit.foldRegisterMuxEnableLoops(subnet);
+#ifdef GATERY_VERIF
+	GATERY_VERIF_PASS(circuit, "Def.generalOptimization:foldRegisterMuxEnableLoops");
+#endif
 	circuit.removeConstSelectMuxes(subnet);
+#ifdef GATERY_VERIF
+	GATERY_VERIF_PASS(circuit, "Def.generalOptimization:removeConstSelectMuxes");
+#endif
 	circuit.propagateConstants(subnet); // do again after muxes are removed
+#ifdef GATERY_VERIF
+	GATERY_VERIF_PASS(circuit, "Def.generalOptimization:propagateConstants");
+#endif
 	circuit.cullUnusedNodes(subnet);
+#ifdef GATERY_VERIF
+	GATERY_VERIF_PASS(circuit, "Def.generalOptimization:cullUnusedNodes");
+#endif
 	circuit.removeDisabledWritePorts(subnet);
+#ifdef GATERY_VERIF
+	GATERY_VERIF_PASS(circuit, "Def.generalOptimization:removeDisabledWritePorts");
+#endif
 /*
 	{
 			DotExport exp("before_resolving_retiming.dot");
@@ -1711,6 +1788,9 @@ void DefaultPostprocessing::generalOptimization(Circuit &circuit) const
 
 	subnet = Subnet::all(circuit);
 	determineNegativeRegisterEnables(circuit, subnet);
+#ifdef GATERY_VERIF
+	GATERY_VERIF_PASS(circuit, "Def.generalOptimization:determineNegativeRegisterEnables");
+#endif
 	/*
 	{
 			DotExport exp("neg_reg_enables.dot");
@@ -1720,6 +1800,9 @@ void DefaultPostprocessing::generalOptimization(Circuit &circuit) const
 	*/
 
 	resolveRetimingHints(circuit, subnet);
+#ifdef GATERY_VERIF
+	GATERY_VERIF_PASS(circuit, "Def.generalOptimization:resolveRetimingHints");
+#endif
 	/*
 	{
 			DotExport exp("before_resolving.dot");
@@ -1728,7 +1811,13 @@ void DefaultPostprocessing::generalOptimization(Circuit &circuit) const
 	}
 	*/
 	annihilateNegativeRegisters(circuit, subnet);
+#ifdef GATERY_VERIF
+	GATERY_VERIF_PASS(circuit, "Def.generalOptimization:annihilateNegativeRegisters");
+#endif
 	bypassRetimingBlockers(circuit, subnet);
+#ifdef GATERY_VERIF
+	GATERY_VERIF_PASS(circuit, "Def.generalOptimization:bypassRetimingBlockers");
+#endif
 /*
 	{
 			DotExport exp("after_general_optimization.dot");
@@ -1737,42 +1826,87 @@ void DefaultPostprocessing::generalOptimization(Circuit &circuit) const
 	}
 */
 	attributeFusion(circuit);
+#ifdef GATERY_VERIF
+	GATERY_VERIF_PASS(circuit, "Def.generalOptimization:attributeFusion");
+#endif
 }
 
 void DefaultPostprocessing::memoryDetection(Circuit &circuit) const
 {
+#ifdef GATERY_VERIF
+	GATERY_VERIF_PASS(circuit, "Def.memoryDetection:begin");
+#endif
 	findMemoryGroups(circuit);
+#ifdef GATERY_VERIF
+	GATERY_VERIF_PASS(circuit, "Def.memoryDetection:findMemoryGroups");
+#endif
 	circuit.cullUnnamedSignalNodes();
+#ifdef GATERY_VERIF
+	GATERY_VERIF_PASS(circuit, "Def.memoryDetection:cullUnnamedSignalNodes");
+#endif
 
 	Subnet subnet = Subnet::all(circuit);
 	circuit.cullUnusedNodes(subnet); // do again after memory group extraction with potential register retiming
+#ifdef GATERY_VERIF
+	GATERY_VERIF_PASS(circuit, "Def.memoryDetection:cullUnusedNodes");
+#endif
 }
 
 void DefaultPostprocessing::exportPreparation(Circuit &circuit) const
 {
+#ifdef GATERY_VERIF
+	GATERY_VERIF_PASS(circuit, "Def.exportPreparation:begin");
+#endif
 	circuit.moveClockDriversToTop();
+#ifdef GATERY_VERIF
+	GATERY_VERIF_PASS(circuit, "Def.exportPreparation:moveClockDriversToTop");
+#endif
 	circuit.ensureSignalNodePlacement();
+#ifdef GATERY_VERIF
+	GATERY_VERIF_PASS(circuit, "Def.exportPreparation:ensureSignalNodePlacement");
+#endif
 	circuit.ensureMultiDriverNodePlacement();
+#ifdef GATERY_VERIF
+	GATERY_VERIF_PASS(circuit, "Def.exportPreparation:ensureMultiDriverNodePlacement");
+#endif
 	circuit.ensureNoLiteralComparison();
+#ifdef GATERY_VERIF
+	GATERY_VERIF_PASS(circuit, "Def.exportPreparation:ensureNoLiteralComparison");
+#endif
 	circuit.ensureChildNotReadingTristatePin();
+#ifdef GATERY_VERIF
+	GATERY_VERIF_PASS(circuit, "Def.exportPreparation:ensureChildNotReadingTristatePin");
+#endif
 	circuit.inferSignalNames();
+#ifdef GATERY_VERIF
+	GATERY_VERIF_PASS(circuit, "Def.exportPreparation:inferSignalNames");
+#endif
 }
 
 
 
 void DefaultPostprocessing::run(Circuit &circuit) const
 {
+#ifdef GATERY_VERIF
+	GATERY_VERIF_PASS(circuit, "Def.run:begin");
+#endif
 	dbg::log(dbg::LogMessage() << dbg::LogMessage::LOG_INFO << dbg::LogMessage::LOG_POSTPROCESSING << "Running default postprocessing.");
 
 	TechnologyMapping fallbackMapping;
 	const TechnologyMapping* techMapping = m_techMapping ? m_techMapping : &fallbackMapping;
 
 	techMapping->apply(circuit, circuit.getRootNodeGroup(), true);
+#ifdef GATERY_VERIF
+	GATERY_VERIF_PASS(circuit, "Def.run:techMapping");
+#endif
 
 	generalOptimization(circuit);
 	memoryDetection(circuit);
 
 	techMapping->apply(circuit, circuit.getRootNodeGroup(), false);
+#ifdef GATERY_VERIF
+	GATERY_VERIF_PASS(circuit, "Def.run:techMapping");
+#endif
 	generalOptimization(circuit); // Because we ran frontend code for tech mapping
 
 	exportPreparation(circuit);
@@ -1783,59 +1917,143 @@ void DefaultPostprocessing::run(Circuit &circuit) const
 
 void MinimalPostprocessing::generalOptimization(Circuit& circuit) const
 {
+#ifdef GATERY_VERIF
+	GATERY_VERIF_PASS(circuit, "Min.generalOptimization:begin");
+#endif
 	Subnet subnet = Subnet::all(circuit);
 	circuit.disconnectZeroBitConnections();
+#ifdef GATERY_VERIF
+	GATERY_VERIF_PASS(circuit, "Min.generalOptimization:disconnectZeroBitConnections");
+#endif
 	circuit.disconnectZeroBitOutputPins();
+#ifdef GATERY_VERIF
+	GATERY_VERIF_PASS(circuit, "Min.generalOptimization:disconnectZeroBitOutputPins");
+#endif
 	defaultValueResolution(circuit, subnet);
+#ifdef GATERY_VERIF
+	GATERY_VERIF_PASS(circuit, "Min.generalOptimization:defaultValueResolution");
+#endif
 	circuit.cullUnusedNodes(subnet); // Dirty way of getting rid of default nodes
+#ifdef GATERY_VERIF
+	GATERY_VERIF_PASS(circuit, "Min.generalOptimization:cullUnusedNodes");
+#endif
 
 	subnet = Subnet::all(circuit);
 	determineNegativeRegisterEnables(circuit, subnet);
+#ifdef GATERY_VERIF
+	GATERY_VERIF_PASS(circuit, "Min.generalOptimization:determineNegativeRegisterEnables");
+#endif
 	resolveRetimingHints(circuit, subnet);
+#ifdef GATERY_VERIF
+	GATERY_VERIF_PASS(circuit, "Min.generalOptimization:resolveRetimingHints");
+#endif
 	annihilateNegativeRegisters(circuit, subnet);
+#ifdef GATERY_VERIF
+	GATERY_VERIF_PASS(circuit, "Min.generalOptimization:annihilateNegativeRegisters");
+#endif
 	bypassRetimingBlockers(circuit, subnet);
+#ifdef GATERY_VERIF
+	GATERY_VERIF_PASS(circuit, "Min.generalOptimization:bypassRetimingBlockers");
+#endif
 
 	circuit.ensureEntityPortSignalNodes();
+#ifdef GATERY_VERIF
+	GATERY_VERIF_PASS(circuit, "Min.generalOptimization:ensureEntityPortSignalNodes");
+#endif
 	circuit.cullOrphanedSignalNodes();
+#ifdef GATERY_VERIF
+	GATERY_VERIF_PASS(circuit, "Min.generalOptimization:cullOrphanedSignalNodes");
+#endif
 	circuit.cullUnnamedSignalNodes();
+#ifdef GATERY_VERIF
+	GATERY_VERIF_PASS(circuit, "Min.generalOptimization:cullUnnamedSignalNodes");
+#endif
 	subnet = Subnet::all(circuit);
 	circuit.cullUnusedNodes(subnet);
+#ifdef GATERY_VERIF
+	GATERY_VERIF_PASS(circuit, "Min.generalOptimization:cullUnusedNodes");
+#endif
 
 	attributeFusion(circuit);
+#ifdef GATERY_VERIF
+	GATERY_VERIF_PASS(circuit, "Min.generalOptimization:attributeFusion");
+#endif
 }
 
 void MinimalPostprocessing::memoryDetection(Circuit& circuit) const
 {
+#ifdef GATERY_VERIF
+	GATERY_VERIF_PASS(circuit, "Min.memoryDetection:begin");
+#endif
 	findMemoryGroups(circuit);
+#ifdef GATERY_VERIF
+	GATERY_VERIF_PASS(circuit, "Min.memoryDetection:findMemoryGroups");
+#endif
 	circuit.cullUnnamedSignalNodes();
+#ifdef GATERY_VERIF
+	GATERY_VERIF_PASS(circuit, "Min.memoryDetection:cullUnnamedSignalNodes");
+#endif
 
 	Subnet subnet = Subnet::all(circuit);
 	circuit.cullUnusedNodes(subnet); // do again after memory group extraction with potential register retiming
+#ifdef GATERY_VERIF
+	GATERY_VERIF_PASS(circuit, "Min.memoryDetection:cullUnusedNodes");
+#endif
 }
 
 void MinimalPostprocessing::exportPreparation(Circuit& circuit) const
 {
+#ifdef GATERY_VERIF
+	GATERY_VERIF_PASS(circuit, "Min.exportPreparation:begin");
+#endif
 	circuit.moveClockDriversToTop();
+#ifdef GATERY_VERIF
+	GATERY_VERIF_PASS(circuit, "Min.exportPreparation:moveClockDriversToTop");
+#endif
 	circuit.ensureSignalNodePlacement();
+#ifdef GATERY_VERIF
+	GATERY_VERIF_PASS(circuit, "Min.exportPreparation:ensureSignalNodePlacement");
+#endif
 	circuit.ensureMultiDriverNodePlacement();
+#ifdef GATERY_VERIF
+	GATERY_VERIF_PASS(circuit, "Min.exportPreparation:ensureMultiDriverNodePlacement");
+#endif
 	circuit.ensureNoLiteralComparison();
+#ifdef GATERY_VERIF
+	GATERY_VERIF_PASS(circuit, "Min.exportPreparation:ensureNoLiteralComparison");
+#endif
 	circuit.ensureChildNotReadingTristatePin();
+#ifdef GATERY_VERIF
+	GATERY_VERIF_PASS(circuit, "Min.exportPreparation:ensureChildNotReadingTristatePin");
+#endif
 	circuit.inferSignalNames();
+#ifdef GATERY_VERIF
+	GATERY_VERIF_PASS(circuit, "Min.exportPreparation:inferSignalNames");
+#endif
 }
 
 
 
 void MinimalPostprocessing::run(Circuit& circuit) const
 {
+#ifdef GATERY_VERIF
+	GATERY_VERIF_PASS(circuit, "Min.run:begin");
+#endif
 	dbg::log(dbg::LogMessage() << dbg::LogMessage::LOG_INFO << dbg::LogMessage::LOG_POSTPROCESSING << "Running default postprocessing.");
 	TechnologyMapping mapping;
 
 
 	mapping.apply(circuit, circuit.getRootNodeGroup(), true);
+#ifdef GATERY_VERIF
+	GATERY_VERIF_PASS(circuit, "Min.run:mapping");
+#endif
 	generalOptimization(circuit);
 	memoryDetection(circuit);
 
 	mapping.apply(circuit, circuit.getRootNodeGroup(), false);
+#ifdef GATERY_VERIF
+	GATERY_VERIF_PASS(circuit, "Min.run:mapping");
+#endif
 	generalOptimization(circuit); // Because we ran frontend code for tech mapping
 
 	exportPreparation(circuit);
